@@ -26,6 +26,8 @@ pub enum Session {
     H1Tunnel,
     /// HTTP/1.1 tunnel with an 8 MiB download the client starts reading `ms` after the signal
     H1Backpressured(u16),
+    /// HTTP/3 connection (quiche) after one answered request
+    H3Idle,
 }
 
 #[derive(Serialize, Deserialize, Debug, Clone)]
@@ -93,7 +95,7 @@ async fn destination(listener: TcpListener) {
     }
 }
 
-const SETTINGS: &str = "listen_address = \"@LISTEN@\"\ncredentials_file = \"@CRED@\"\nallow_private_network_connections = true\n[listen_protocols]\n[listen_protocols.http1]\n[listen_protocols.http2]\n";
+const SETTINGS: &str = "listen_address = \"@LISTEN@\"\ncredentials_file = \"@CRED@\"\nallow_private_network_connections = true\n[listen_protocols]\n[listen_protocols.http1]\n[listen_protocols.http2]\n[listen_protocols.quic]\n";
 const CREDENTIALS: &str = "[[client]]\nusername = \"user\"\npassword = \"pass\"\n";
 
 fn hosts() -> String {
@@ -241,6 +243,22 @@ async fn run_session(
             drain(&mut io, &mut seen, 0, Duration::from_secs(6)).await;
             seen
         }
+        Session::H3Idle => {
+            let held = crate::engine::quic::h3_hold(addr, "main.x", ready, go, Duration::from_secs(3)).await;
+            if let Some(e) = held.error {
+                return fail(seen, e);
+            }
+            if held.ping_status != Some(200) {
+                return fail(seen, format!("x-ping over HTTP/3 answered {:?}", held.ping_status));
+            }
+            seen.intact = true;
+            seen.clean = held.closed_by_peer;
+            seen.end = match held.peer_error {
+                Some(e) => format!("CONNECTION_CLOSE from the endpoint ({})", e),
+                None => "no CONNECTION_CLOSE within 3 s of the signal".into(),
+            };
+            seen
+        }
         Session::H2Idle(n) | Session::H2Tunnels(n, _) => {
             let io = match tls_connect(addr, "main.x", &["h2"]).await {
                 Ok(x) => x,
@@ -335,7 +353,7 @@ impl Suite for ProcessSuite {
         "process-shutdown"
     }
     fn rule(&self) -> String {
-        "the real endpoint binary (main.rs compiled by the harness build) on a loopback port with 1-5 live TLS sessions in generated states (HTTP/2 idle after 0-2 health checks, HTTP/2 with 1-3 open CONNECT tunnels that the client ends 0-400 ms after the signal, TLS session without a request, HTTP/1.1 tunnel with its download read, HTTP/1.1 tunnel with an 8 MiB download that the client only starts reading 100-600 ms after the signal) receives SIGINT; oracle: every HTTP/1.1 session ends with a TLS close_notify and not with a bare TCP close, every HTTP/2 session receives a GOAWAY frame, downloads are an intact prefix, the process is still there while the back-pressured session has unread data, and it exits with status 0 within 5 s after the last session ended; non-trivial = at least two sessions or a session with an open tunnel".into()
+        "the real endpoint binary (main.rs compiled by the harness build) on a loopback port with 1-5 live TLS sessions in generated states (HTTP/2 idle after 0-2 health checks, HTTP/2 with 1-3 open CONNECT tunnels that the client ends 0-400 ms after the signal, TLS session without a request, HTTP/1.1 tunnel with its download read, HTTP/1.1 tunnel with an 8 MiB download that the client only starts reading 100-600 ms after the signal, HTTP/3 connection of a quiche client after one answered request) receives SIGINT; oracle: every HTTP/1.1 session ends with a TLS close_notify and not with a bare TCP close, every HTTP/2 session receives a GOAWAY frame, every HTTP/3 connection a CONNECTION_CLOSE within 3 s, downloads are an intact prefix, the process is still there while the back-pressured session has unread data, and it exits with status 0 within 5 s after the last session ended; non-trivial = at least two sessions or a session with an open tunnel".into()
     }
     fn strategy(&self, _: Tier) -> BoxedStrategy<Case> {
         let s = prop_oneof![
@@ -344,6 +362,7 @@ impl Suite for ProcessSuite {
             1 => Just(Session::H1Idle),
             2 => Just(Session::H1Tunnel),
             2 => (100u16..600).prop_map(Session::H1Backpressured),
+            2 => Just(Session::H3Idle),
         ];
         prop::collection::vec(s, 1..=5).prop_map(|sessions| Case { sessions }).boxed()
     }
@@ -359,17 +378,18 @@ impl Suite for ProcessSuite {
                 Session::H1Idle => "h1-idle",
                 Session::H1Tunnel => "h1-tunnel",
                 Session::H1Backpressured(_) => "h1-backpressured",
+                Session::H3Idle => "h3-idle",
             });
         }
         v.sort();
         v.dedup();
-        if c.sessions.len() >= 2 || c.sessions.iter().any(|s| !matches!(s, Session::H2Idle(_) | Session::H1Idle)) {
+        if c.sessions.len() >= 2 || c.sessions.iter().any(|s| !matches!(s, Session::H2Idle(_) | Session::H1Idle | Session::H3Idle)) {
             v.push("nontrivial");
         }
         v
     }
     fn required_classes(&self) -> Vec<&'static str> {
-        vec!["nontrivial", "h2-idle", "h2-open-tunnels", "h1-idle", "h1-tunnel", "h1-backpressured"]
+        vec!["nontrivial", "h2-idle", "h2-open-tunnels", "h1-idle", "h1-tunnel", "h1-backpressured", "h3-idle"]
     }
     fn check(&self, c: &Case) -> Verdict {
         let c = c.clone();
